@@ -301,6 +301,22 @@ func init() {
 		return nil
 	}
 
+	// ---- expr-lang: not encodable ----
+	intrinsics["github.com/rulego/streamsql/condition.NewExprCondition"] = func(e *Exec, fn *ssa.Function, a []Value, c *Frame) Value {
+		alt := fn.Pkg.Func("VerifNewFastCondition")
+		if alt == nil {
+			e.unsupported("condition.NewExprCondition needs harness/condition/fastcond.go in the overlay")
+		}
+		return e.runBody(alt, a)
+	}
+	cutExpr := func(e *Exec, fn *ssa.Function, a []Value, c *Frame) Value {
+		panic(pathEnd{"cut", "expr-lang " + fn.Name() + " (general expression engine is outside the encodable code)"})
+	}
+	intrinsics["github.com/expr-lang/expr.Run"] = cutExpr
+	intrinsics["github.com/expr-lang/expr.Compile"] = cutExpr
+	intrinsics["github.com/expr-lang/expr.Eval"] = cutExpr
+	intrinsics["(*github.com/expr-lang/expr/vm.VM).Run"] = cutExpr
+
 	// ---- sync ----
 	lock := func(write bool) intrinsicFn {
 		return func(e *Exec, fn *ssa.Function, a []Value, c *Frame) Value {
